@@ -196,6 +196,12 @@ func cmdCheck(args []string) int {
 	if err != nil {
 		return fail("load: " + err.Error())
 	}
+	for f, e := range P.FileErrs {
+		if strings.Contains(strings.ToLower(filepath.Base(f)), strings.ToLower(*prop)) {
+			return fail("contract file error: " + e)
+		}
+		fmt.Printf("warning: contract file skipped or partly ignored (not part of %s): %s\n", *prop, e)
+	}
 	tLoad := time.Since(t0).Seconds()
 	scratch := *dump
 	if scratch == "" {
